@@ -1,6 +1,454 @@
+/-
+  C17 — all accepted construction inputs agree; malformed input is always rejected.
+
+  Model of: the converters at the end of `biom/table.py` (`coo_arrays_to_sparse`,
+  `list_list_to_sparse`, `nparray_to_sparse`, `list_nparray_to_sparse`, `list_sparse_to_sparse`,
+  `list_dict_to_sparse` with its row/column orientation guess, `dict_to_sparse`), the dispatch of
+  `Table._to_sparse`, the constructor (metadata normalisation, `errcheck` under an error profile —
+  kinds visited in sorted order, the first triggering kind decides —, `_cast_metadata`),
+  `Table.from_adjacency`, `parse_uc` and the fasta renaming of `biom from-uc`.
+
+  scipy is a parameter with a recorded contract:
+    * `coo_matrix((vals,(rows,cols)), shape=(n,m)).tocsr()` = `cooDense n m` (an index outside the
+      shape is a ValueError, duplicate coordinates are summed, stored zeros are not content);
+    * `coo_matrix(dense)` keeps the dense content and lists the non-zero entries in row-major order;
+    * `tocsr()`, `astype(float)`, `eliminate_zeros()`, `vstack` keep the dense content.
+-/
 import BiomModel.Codec
 open Lean
+
 namespace Biom.C17
-/-- stub: not built yet -/
-def handle (_req : Json) : Codec.R Json := .error "C17: model not built yet"
+
+abbrev Grid := List (List Rat)
+abbrev Coord := Nat × Nat
+abbrev Triple := Nat × Nat × Rat
+abbrev Dict := List (Coord × Rat)
+
+/-- a matrix with its shape (a 0×m matrix has no rows but m columns) -/
+structure Mat where
+  nR : Nat
+  nC : Nat
+  rows : Grid
+  deriving Repr, DecidableEq, BEq
+
+/-! ### scipy contract -/
+
+/-- the values stored for cell (i,j), in storage order -/
+def cellVals (ts : List Triple) (i j : Nat) : List Rat :=
+  (ts.filter (fun t => t.1 == i && t.2.1 == j)).map (·.2.2)
+
+def cellSum (ts : List Triple) (i j : Nat) : Rat := sumL (cellVals ts i j)
+
+def inRange (n m : Nat) (ts : List Triple) : Bool := ts.all (fun t => decide (t.1 < n) && decide (t.2.1 < m))
+
+def tabulate (n m : Nat) (f : Nat → Nat → Rat) : Grid :=
+  (List.range n).map (fun i => (List.range m).map (f i))
+
+/-- `coo_matrix((vals,(rows,cols)), shape=(n,m)).tocsr()` seen densely -/
+def cooDense (n m : Nat) (ts : List Triple) : Except Err Mat :=
+  if inRange n m ts then .ok ⟨n, m, tabulate n m (cellSum ts)⟩ else .error .value
+
+def maxL (xs : List Nat) : Nat := xs.foldr max 0
+
+/-- non-zero entries of one dense row, left to right -/
+def rowTriples (i : Nat) : Nat → List Rat → List Triple
+  | _, [] => []
+  | j, v :: vs => if v = 0 then rowTriples i (j + 1) vs else (i, j, v) :: rowTriples i (j + 1) vs
+
+/-- `coo_matrix(dense)`: the non-zero entries in row-major order -/
+def gridTriples : Nat → Grid → List Triple
+  | _, [] => []
+  | i, r :: rs => rowTriples i 0 r ++ gridTriples (i + 1) rs
+
+/-- `coo_matrix(nested lists)`: shape and entries; ragged lists are a ValueError of numpy -/
+def cooOfLists (ls : Grid) : Except Err (Nat × Nat × List Triple) :=
+  let m := (ls.headD []).length
+  if ls.all (fun r => r.length == m) then .ok (ls.length, m, gridTriples 0 ls) else .error .value
+
+/-! ### the converters -/
+
+/-- `coo_arrays_to_sparse((values,(rows,cols)), shape=…)` -/
+def cooArraysToSparse (ts : List Triple) (shape : Option (Nat × Nat)) : Except Err Mat :=
+  match shape with
+  | some (n, m) => cooDense n m ts
+  | none =>
+    if ts.isEmpty then .error .value   -- max() of an empty sequence
+    else cooDense (maxL (ts.map (·.1)) + 1) (maxL (ts.map (·.2.1)) + 1) ts
+
+def natOfRat? (q : Rat) : Option Nat :=
+  if q.den = 1 then (if 0 ≤ q.num then some q.num.toNat else none) else none
+
+/-- one `[row, col, value]` list -/
+def tripleOfRow? : List Rat → Option Triple
+  | [r, c, v] => do pure ((← natOfRat? r), (← natOfRat? c), v)
+  | _ => none
+
+def triplesOf? (ls : Grid) : Option (List Triple) := ls.mapM tripleOfRow?
+
+/-- `list_list_to_sparse(data, shape=…)`: `rows, cols, values = zip(*data)` -/
+def listListToSparse (ls : Grid) (shape : Option (Nat × Nat)) : Except Err Mat :=
+  match triplesOf? ls with
+  | none => .error .value
+  | some ts => cooArraysToSparse ts shape
+
+/-- `nparray_to_sparse` on a 1-D array -/
+def vecToSparse (v : List Rat) : Mat :=
+  if v.length = 0 then ⟨0, 0, []⟩ else ⟨1, v.length, [v]⟩
+
+/-- `nparray_to_sparse` on a 2-D array of shape (nR, nC) -/
+def arrToSparse (nR nC : Nat) (rows : Grid) : Mat :=
+  if (nR = 1 ∧ nC = 0) ∨ (nR = 0 ∧ nC = 1) then ⟨0, 0, []⟩ else ⟨nR, nC, rows⟩
+
+/-- `list_nparray_to_sparse`: shape (len(data), len(data[0])) -/
+def listNparrayToSparse (rows : Grid) : Except Err Mat :=
+  let m := (rows.headD []).length
+  if rows.all (fun r => r.length == m) then .ok ⟨rows.length, m, rows⟩ else .error .value
+
+/-- `list_sparse_to_sparse`: `vstack(data)`; the `shape=` it computes is ignored by scipy when the
+argument already is a sparse matrix -/
+def listSparseToSparse (ms : List Mat) : Except Err Mat :=
+  match ms with
+  | [] => .error .index
+  | m0 :: _ =>
+    if ms.all (fun m => m.nC == m0.nC) then
+      .ok ⟨sumL (ms.map (·.nR)), m0.nC, ms.flatMap (·.rows)⟩
+    else .error .value
+
+/-- the coordinate triples `list_dict_to_sparse` emits: entry `((row_val, col_idx), val)` of the
+dict at list position `idx` goes to `(row_val, idx)` when the list is taken as columns and to
+`(idx, col_idx)` otherwise -/
+def enumTriples (isCol : Bool) : Nat → List Dict → List Triple
+  | _, [] => []
+  | idx, d :: rest =>
+    d.map (fun e => if isCol then (e.1.1, idx, e.2) else (idx, e.1.2, e.2)) ++ enumTriples isCol (idx + 1) rest
+
+def allKeys (ds : List Dict) : List Coord := ds.flatMap (fun d => d.map (·.1))
+
+/-- the orientation guess: more rows than columns among the keys ⇒ the dicts are columns -/
+def guessIsCol (ds : List Dict) : Bool :=
+  maxL ((allKeys ds).map (·.1)) + 1 > maxL ((allKeys ds).map (·.2)) + 1
+
+def listDictToSparse (ds : List Dict) : Except Err Mat :=
+  if (allKeys ds).isEmpty then .error .value   -- max() of an empty sequence
+  else
+    let nR0 := maxL ((allKeys ds).map (·.1)) + 1
+    let nC0 := maxL ((allKeys ds).map (·.2)) + 1
+    let isCol := guessIsCol ds
+    let nR := if isCol then nR0 else ds.length
+    let nC := if isCol then ds.length else nC0
+    cooDense nR nC (enumTriples isCol 0 ds)
+
+def dictTriples (d : Dict) : List Triple := d.map (fun e => (e.1.1, e.1.2, e.2))
+
+/-- `dict_to_sparse(data, shape=…)` -/
+def dictToSparse (d : Dict) (shape : Option (Nat × Nat)) : Except Err Mat :=
+  match shape with
+  | some s => cooArraysToSparse (dictTriples d) (some s)
+  | none =>
+    if d.isEmpty then .error .value
+    else cooArraysToSparse (dictTriples d)
+      (some (maxL (d.map (·.1.1)) + 1, maxL (d.map (·.1.2)) + 1))
+
+/-! ### `_to_sparse`: dispatch on the run-time type of the value / of its first element -/
+
+inductive Data where
+  | vec (v : List Rat)                       -- 1-D ndarray
+  | arr (nR nC : Nat) (rows : Grid)          -- 2-D ndarray of shape (nR, nC)
+  | emptyList                                -- []
+  | listArr (rows : Grid)                    -- non-empty list whose first element is a 1-D ndarray
+  | listDict (ds : List Dict)                -- … a dict {(r,c): v}
+  | listSparse (ms : List Mat)               -- … a scipy sparse matrix
+  | dict (d : Dict)                          -- dict {(r,c): v}
+  | listList (ls : Grid)                     -- … a list: `[r,c,v]` triples, or dense rows with `input_is_dense`
+  | sparse (m : Mat)                         -- scipy sparse matrix of any layout, seen densely
+  | unknown                                  -- anything else
+  deriving Repr, DecidableEq
+
+def toSparse (d : Data) (inputIsDense : Bool) (shape : Nat × Nat) : Except Err Mat :=
+  match d with
+  | .vec v => .ok (vecToSparse v)
+  | .arr nR nC rows => .ok (arrToSparse nR nC rows)
+  | .emptyList => .ok ⟨0, 0, []⟩
+  | .listArr rows => listNparrayToSparse rows
+  | .listDict ds => listDictToSparse ds
+  | .listSparse ms => listSparseToSparse ms
+  | .dict d => dictToSparse d (some shape)
+  | .listList ls =>
+    if inputIsDense then do
+      let (n, m, ts) ← cooOfLists ls
+      if (n, m) ≠ shape then .error .tableException
+      else cooArraysToSparse ts (some shape)
+    else listListToSparse ls (some shape)
+  | .sparse m => .ok m
+  | .unknown => .error .tableException
+
+/-! ### the constructor -/
+
+/-- one entry of a metadata sequence as the constructor sees it -/
+inductive MdEntry where
+  | map (m : Md)     -- a dict
+  | null             -- None
+  | other            -- anything else (a string, a list, a number …)
+  deriving Repr, DecidableEq
+
+def MdEntry.blank : MdEntry → Bool
+  | .map m => m.isEmpty
+  | .null => true
+  | .other => false
+
+def MdEntry.isOther : MdEntry → Bool
+  | .other => true
+  | _ => false
+
+def MdEntry.toMd : MdEntry → Md
+  | .map m => m
+  | _ => []
+
+structure Input where
+  data : Data
+  obs : List Id
+  samp : List Id
+  omd : Option (List MdEntry) := none
+  smd : Option (List MdEntry) := none
+  inputIsDense : Bool := false
+  deriving Repr
+
+/-- `no_metadata(md, ids)`: exactly one None/empty mapping per ID ⇒ the axis has no metadata -/
+def normMd (md : Option (List MdEntry)) (ids : List Id) : Option (List MdEntry) :=
+  match md with
+  | none => none
+  | some l => if l.length == ids.length && l.all MdEntry.blank then none else some l
+
+/-- `len(set(ids))` -/
+def dedup : List Id → List Id
+  | [] => []
+  | x :: xs => if x ∈ xs then dedup xs else x :: dedup xs
+
+/-- the registered error kinds in the order `ErrorProfile.test` visits them (`sorted(names)`) -/
+def kindsSorted : List String :=
+  ["empty", "obsdup", "obsmdsize", "obssize", "sampdup", "sampmdsize", "sampsize"]
+
+/-- the reaction configured by default -/
+def defaultProfile (k : String) : String := if k = "empty" then "ignore" else "raise"
+
+/-- the test function of each kind, on the half-built table -/
+def fires (M : Mat) (obs samp : List Id) (omd smd : Option (List MdEntry)) (k : String) : Bool :=
+  if k = "empty" then obs.isEmpty || samp.isEmpty
+  else if k = "obsdup" then M.nR != (dedup obs).length
+  else if k = "obsmdsize" then (match omd with | some l => M.nR != l.length | none => false)
+  else if k = "obssize" then M.nR != obs.length
+  else if k = "sampdup" then M.nC != (dedup samp).length
+  else if k = "sampmdsize" then (match smd with | some l => M.nC != l.length | none => false)
+  else if k = "sampsize" then M.nC != samp.length
+  else false
+
+/-- `errcheck(self)`: the first kind whose test fires decides; only `raise` stops the constructor -/
+def errcheck (prof : String → String) (M : Mat) (obs samp : List Id)
+    (omd smd : Option (List MdEntry)) : Except Err Unit :=
+  match kindsSorted.find? (fires M obs samp omd smd) with
+  | none => .ok ()
+  | some k => if prof k = "raise" then .error .tableException else .ok ()
+
+/-- `cast_metadata(md)` -/
+def castMd (md : Option (List MdEntry)) : Except Err (Option (List Md)) :=
+  match md with
+  | none => .ok none
+  | some l =>
+    if l.all (fun e => e == .null) then .ok none
+    else if l.any MdEntry.isOther then .error .tableException
+    else .ok (some (l.map MdEntry.toMd))
+
+/-- everything after `_to_sparse` -/
+def finish (prof : String → String) (M : Mat) (obs samp : List Id)
+    (omd smd : Option (List MdEntry)) : Except Err (Table Rat) := do
+  let smd' := normMd smd samp
+  let omd' := normMd omd obs
+  errcheck prof M obs samp omd' smd'
+  let s ← castMd smd'
+  let o ← castMd omd'
+  pure { obs := obs, samp := samp, rows := M.rows, omd := o, smd := s }
+
+def constructWith (prof : String → String) (inp : Input) : Except Err (Table Rat) := do
+  let M ← toSparse inp.data inp.inputIsDense (inp.obs.length, inp.samp.length)
+  finish prof M inp.obs inp.samp inp.omd inp.smd
+
+/-- `Table(data, observation_ids, sample_ids, observation_metadata, sample_metadata,
+input_is_dense=…)` under the default error profile -/
+def construct (inp : Input) : Except Err (Table Rat) := constructWith defaultProfile inp
+
+/-! ### `Table.from_adjacency` -/
+
+/-- one line: its tab-separated fields and what `float()` makes of the third one (none: not numeric) -/
+structure AdjLine where
+  fields : List String
+  num : Option Rat
+  deriving Repr, DecidableEq
+
+def adjHeader : List String := ["#OTU ID", "SampleID", "value"]
+
+/-- insertion into a strictly increasing list (`sorted(set(...))`) -/
+def insertS (x : String) : List String → List String
+  | [] => [x]
+  | y :: ys => if x < y then x :: y :: ys else if x = y then y :: ys else y :: insertS x ys
+
+def sortDedup (xs : List String) : List String := xs.foldr insertS []
+
+/-- (observation, sample, value) of a record line; a line without three fields trips the `assert`,
+a non-numeric value is float()'s ValueError -/
+def adjRecord (l : AdjLine) : Except Err (String × String × Rat) :=
+  match l.fields with
+  | [o, s, _] => match l.num with
+    | some v => .ok (o, s, v)
+    | none => .error .value
+  | _ => .error .other
+
+/-- which lines are records: the first line is skipped when it is the header, kept when its third
+field is numeric, and anything else is refused -/
+def adjBody (lines : List AdjLine) : Except Err (List AdjLine) :=
+  match lines with
+  | [] => .error .index
+  | l0 :: rest =>
+    if l0.fields.length ≠ 3 then .error .value
+    else if l0.fields = adjHeader then .ok rest
+    else if l0.num.isSome then .ok (l0 :: rest)
+    else .error .value
+
+def adjTriples (oo so : List String) (recs : List (String × String × Rat)) : List Triple :=
+  recs.map (fun r => (oo.idxOf r.1, so.idxOf r.2.1, r.2.2))
+
+def fromAdjacency (lines : List AdjLine) : Except Err (Table Rat) := do
+  let body ← adjBody lines
+  let recs ← body.mapM adjRecord
+  let oo := sortDedup (recs.map (·.1))
+  let so := sortDedup (recs.map (·.2.1))
+  let ts := adjTriples oo so recs
+  -- coo_matrix((data,(row,col))) without a shape: inferred from the largest index
+  let M ← cooArraysToSparse ts none
+  construct { data := .sparse M, obs := oo, samp := so }
+
+/-! ### `parse_uc` and `from-uc` -/
+
+def isWs (c : Char) : Bool := c == ' ' || c == '\t' || c == '\n' || c == '\r' || c == '\x0b' || c == '\x0c'
+
+/-- `s.split()[0]` on characters -/
+def firstTokenL (cs : List Char) : Option (List Char) :=
+  match (cs.dropWhile isWs).takeWhile (fun c => !isWs c) with
+  | [] => none
+  | t => some t
+
+def firstToken (s : String) : Option String := (firstTokenL s.toList).map String.ofList
+
+/-- `q[:q.rindex('_')]` on characters: the text before the last underscore -/
+def beforeLastUnderscore : List Char → Option (List Char)
+  | [] => none
+  | c :: cs =>
+    match beforeLastUnderscore cs with
+    | some p => some (c :: p)
+    | none => if c = '_' then some [] else none
+
+def sampleOf (q : String) : Option String := (beforeLastUnderscore q.toList).map String.ofList
+
+/-- a record of interest: type letter, seed (observation) label, query label -/
+structure UcRec where
+  ty : String
+  seed : String
+  query : String
+  deriving Repr, DecidableEq
+
+/-- one line (already `strip()`ped and split on tabs): `none` = skipped -/
+def ucRecord (fields : List String) : Except Err (Option UcRec) :=
+  match fields with
+  | [] => .ok none
+  | ty :: _ =>
+    if ty = "H" || ty = "S" || ty = "L" then
+      match fields[9]?, fields[8]? with
+      | some f9, some f8 =>
+        match firstToken f9, firstToken f8 with
+        | some o, some q => .ok (some ⟨ty, if o = "*" then q else o, q⟩)
+        | _, _ => .error .index
+      | _, _ => .error .index
+    else .ok none
+
+structure UcState where
+  obsIds : List String := []
+  sampIds : List String := []
+  data : Dict := []
+  deriving Repr
+
+/-- `data[(i, j)] += 1` on a defaultdict(int) kept as an association list -/
+def bump (d : Dict) (k : Coord) : Dict :=
+  match d with
+  | [] => [(k, 1)]
+  | e :: rest => if e.1 = k then (e.1, e.2 + 1) :: rest else e :: bump rest k
+
+/-- index of an identifier, appended when it is new -/
+def intern (ids : List String) (x : String) : Nat × List String :=
+  if x ∈ ids then (ids.idxOf x, ids) else (ids.length, ids ++ [x])
+
+def ucStep (st : UcState) (r : UcRec) : Except Err UcState :=
+  let (oi, obsIds) := intern st.obsIds r.seed
+  if r.ty = "H" || r.ty = "S" then
+    match sampleOf r.query with
+    | none => .error .value
+    | some s =>
+      let (si, sampIds) := intern st.sampIds s
+      .ok { obsIds := obsIds, sampIds := sampIds, data := bump st.data (oi, si) }
+  else .ok { st with obsIds := obsIds }
+
+def ucFold (st : UcState) : List UcRec → Except Err UcState
+  | [] => .ok st
+  | r :: rs => do let st' ← ucStep st r; ucFold st' rs
+
+def ucRecords (lines : List (List String)) : Except Err (List UcRec) := do
+  let rs ← lines.mapM ucRecord
+  pure (rs.filterMap id)
+
+def parseUc (lines : List (List String)) : Except Err (Table Rat) := do
+  let recs ← ucRecords lines
+  let st ← ucFold {} recs
+  construct { data := .dict st.data, obs := st.obsIds, samp := st.sampIds }
+
+/-- `line.split()` on characters -/
+def tokensAux : List Char → List Char → List (List Char)
+  | cur, [] => if cur.isEmpty then [] else [cur.reverse]
+  | cur, c :: cs =>
+    if isWs c then (if cur.isEmpty then tokensAux [] cs else cur.reverse :: tokensAux [] cs)
+    else tokensAux (c :: cur) cs
+
+def tokens (s : String) : List String := (tokensAux [] s.toList).map String.ofList
+
+/-- `_id_map_from_fasta`: `>obs_id seq_id …` lines give `seq_id ↦ obs_id`, in file order -/
+def fastaMap : List String → Except Err (List (String × String))
+  | [] => .ok []
+  | l :: rest =>
+    match l.toList with
+    | '>' :: _ =>
+      match tokens l with
+      | a :: b :: _ => do
+        let m ← fastaMap rest
+        pure ((b, String.ofList (a.toList.drop 1)) :: m)
+      | _ => .error .value
+    | _ => fastaMap rest
+
+/-- later entries win: look the key up from the back -/
+def mapGet (m : List (String × String)) (k : String) : Option String := m.reverse.lookup k
+
+/-- `update_ids(id_map, axis='observation', strict=True, inplace=True)` wrapped by `_from_uc`:
+every refusal becomes a ValueError -/
+def renameObs (t : Table Rat) (m : List (String × String)) : Except Err (Table Rat) :=
+  if m.isEmpty then .error .value   -- max() of an empty sequence
+  else match t.obs.mapM (mapGet m) with
+    | none => .error .value
+    | some ids =>
+      if (dedup ids).length ≠ ids.length then .error .value
+      else .ok { t with obs := ids }
+
+def fromUc (lines : List (List String)) (fasta : Option (List String)) : Except Err (Table Rat) := do
+  let t ← parseUc lines
+  match fasta with
+  | none => pure t
+  | some fl => do
+    let m ← fastaMap fl
+    renameObs t m
+
 end Biom.C17
